@@ -19,7 +19,7 @@ import (
 )
 
 func init() {
-	pbt.Describe("total/positions: arbitrary byte strings (rapid byte slices; token soup with hostile fragments: invalid UTF-8, unterminated quotes, backslash at EOF, /* comments, stray brackets, NUL, lone CR, CRLF, long lines) and well-formed files: Parse, ParseLax, ParseWork, ModulePath must return (panics and hangs are caught by the harness), no error text contains 'internal error', and every position in errors and in the syntax tree (through hook VerifParseSyntax, raw tokens) is recomputed from the bytes: Byte in range, Line = 1+newlines before, LineRune = 1+runes since the last newline, the input at Byte starts with the token/paren/comment described, the tokens of a line are exactly the non-blank pieces between Start and End; directive-level errors point at the Start of a statement. strictlax: modgen files, and the same files with unknown directives, unknown blocks and malformed main-module-only directives inserted: strict-accepted => lax-accepted with equal module/go/require/retract values; insertions make strict fail and leave the lax values unchanged. modulepath: strict-accepted files whose module directive is a single line naming a valid import path: ModulePath == parsed path (the one known shape, a block line whose first token is the bare word 'module', is excluded by construction and re-executed as a regression). Non-trivial: a syntax tree with >=2 statements, or an error beyond byte 0; strictlax: >=1 insertion; modulepath: module path present. Distinct by JSON rendering.",
+	pbt.Describe("(well-formed files also receive token-level mutations: a line cut short after any token, a token dropped, duplicated, swapped or taken from another line) total/positions: arbitrary byte strings (rapid byte slices; token soup with hostile fragments: invalid UTF-8, unterminated quotes, backslash at EOF, /* comments, stray brackets, NUL, lone CR, CRLF, long lines) and well-formed files: Parse, ParseLax, ParseWork, ModulePath must return (panics and hangs are caught by the harness), no error text contains 'internal error', and every position in errors and in the syntax tree (through hook VerifParseSyntax, raw tokens) is recomputed from the bytes: Byte in range, Line = 1+newlines before, LineRune = 1+runes since the last newline, the input at Byte starts with the token/paren/comment described, the tokens of a line are exactly the non-blank pieces between Start and End; directive-level errors point at the Start of a statement. strictlax: modgen files, and the same files with unknown directives, unknown blocks and malformed main-module-only directives inserted: strict-accepted => lax-accepted with equal module/go/require/retract values; insertions make strict fail and leave the lax values unchanged. modulepath: strict-accepted files whose module directive is a single line naming a valid import path: ModulePath == parsed path (the one known shape, a block line whose first token is the bare word 'module', is excluded by construction and re-executed as a regression). Non-trivial: a syntax tree with >=2 statements, or an error beyond byte 0; strictlax: >=1 insertion; modulepath: module path present. Distinct by JSON rendering.",
 		"the only error-text observation is the substring 'internal error' (the property names it)",
 		"a parser that needs more than the watchdog period is reported as a hang",
 		"pathref import-path validity (see C06)")
@@ -32,7 +32,8 @@ type textCase struct{ Text string }
 // ---------------------------------------------------------------------------
 // generators
 
-var frags = []string{"module example.com/m\n", "go 1.21\n", "require (\n", ")\n", "\ta v1.0.0 // indirect\n", "require a v1.0.0\n", "replace a => ./b\n", "retract [v1.0.0, v1.1.0] // why\n", "// comment\n", "\n", "\r\n", "(", ")", "[", "]", "{", "}", ",", "\"", "`", "\\", "/*", "*/", "//", "\x00", "\xff", "\xc3", "\r", " ", "\t", "é", "=>", "\"abc", "\"a\\", "use ./x\n", "godebug a=b\n", "tool x\n", "toolchain go1.21.0\n", "exclude a v1\n", "x ( ) // c\n", "module \"quoted\"\n", "module `raw`\n", "v1.0.0", "a", "unknown directive\n", "require x (\n"}
+var frags = []string{"module example.com/m\n", "go 1.21\n", "require (\n", ")\n", "\ta v1.0.0 // indirect\n", "require a v1.0.0\n", "replace a => ./b\n", "retract [v1.0.0, v1.1.0] // why\n", "// comment\n", "\n", "\r\n", "(", ")", "[", "]", "{", "}", ",", "\"", "`", "\\", "/*", "*/", "//", "\x00", "\xff", "\xc3", "\r", " ", "\t", "é", "=>", "\"abc", "\"a\\", "use ./x\n", "godebug a=b\n", "tool x\n", "toolchain go1.21.0\n", "exclude a v1\n", "x ( ) // c\n", "module \"quoted\"\n", "module `raw`\n", "v1.0.0", "a", "unknown directive\n", "require x (\n",
+	"x ( )", "exclude ()", "a b ( )\t", "require ( ) ", "\ufeff", "\ufeffmodule m\n", "\n\r", "\t\r// c\n", "\r// c\n", "// c\r\r\n", "// c\r \n", "\u2028", "\u0085", "\u00a0"}
 
 func genText(t *rapid.T) textCase {
 	switch rapid.IntRange(0, 9).Draw(t, "kind") {
@@ -43,8 +44,11 @@ func genText(t *rapid.T) textCase {
 	case 2, 3:
 		f := modgen.Gen(t, modgen.Options{Work: rapid.IntRange(0, 3).Draw(t, "work") == 0, OddPaths: true})
 		s := f.Render()
-		if rapid.Bool().Draw(t, "mutate") {
+		switch rapid.IntRange(0, 3).Draw(t, "mutate") {
+		case 0, 1:
 			s = gen.MutateString(t, s, rapid.IntRange(1, 2).Draw(t, "nm"), frags)
+		case 2:
+			s = mutateTokens(t, s)
 		}
 		return textCase{s}
 	}
@@ -64,6 +68,51 @@ func genText(t *rapid.T) textCase {
 		sb.WriteString(strings.Repeat("x", 1<<20))
 	}
 	return textCase{sb.String()}
+}
+
+// mutateTokens changes the arity or token order of one or two lines of a well-formed file:
+// a line loses its last k tokens (a directive cut short at every possible point), loses,
+// duplicates or swaps a token, or receives a token of another line. Every argument-count and
+// argument-shape test of the directive parsers is reachable this way.
+func mutateTokens(t *rapid.T, s string) string {
+	lines := strings.Split(s, "\n")
+	var all []string
+	for _, l := range lines {
+		all = append(all, strings.Fields(l)...)
+	}
+	if len(all) == 0 {
+		return s
+	}
+	for k := rapid.IntRange(1, 2).Draw(t, "nlines"); k > 0; k-- {
+		li := gen.Uniform(t, len(lines), "line")
+		f := strings.Fields(lines[li])
+		if len(f) == 0 {
+			continue
+		}
+		indent := ""
+		if strings.HasPrefix(lines[li], "\t") {
+			indent = "\t"
+		}
+		switch rapid.IntRange(0, 5).Draw(t, "tokop") {
+		case 0, 1: // cut short
+			f = f[:len(f)-rapid.IntRange(1, len(f)).Draw(t, "cut")]
+		case 2: // drop one
+			i := gen.Uniform(t, len(f), "tok")
+			f = append(f[:i:i], f[i+1:]...)
+		case 3: // duplicate one
+			i := gen.Uniform(t, len(f), "tok")
+			f = append(f[:i+1:i+1], f[i:]...)
+		case 4: // swap two
+			i, j := gen.Uniform(t, len(f), "tok"), gen.Uniform(t, len(f), "tok2")
+			f[i], f[j] = f[j], f[i]
+		case 5: // foreign token
+			i := gen.Uniform(t, len(f)+1, "tokpos")
+			x := all[gen.Uniform(t, len(all), "foreign")]
+			f = append(f[:i:i], append([]string{x}, f[i:]...)...)
+		}
+		lines[li] = indent + strings.Join(f, " ")
+	}
+	return strings.Join(lines, "\n")
 }
 
 // ---------------------------------------------------------------------------
